@@ -1361,3 +1361,30 @@ def rule_B6(prog):
                    "gap diff and the cursor updates (back edges not dominated by the gap diff: %d; cursors %s; stored after it on "
                    "every iteration: %s)" % (len(bad), sorted(cursors), sorted(stores)), file=fn.file, line=gline)
     return r
+
+
+def rule_B7(prog):
+    r = RuleResult("B7", "Patience always lines up its anchors: inside patience::diff_deadline every call of the inner "
+                         "myers::diff_deadline drives the Patience hook (possibly wrapped), never the caller's hook directly, "
+                         "so no input bypasses the unique-item anchoring")
+    for fn in prog.find("algorithms::patience::diff_deadline"):
+        m = fn.mir
+        calls = [(bb, t) for bb, t in m.calls() if (m.callee(t) or {}).get("path", "").endswith("myers::diff_deadline")]
+        r.instances += 1
+        bad = []
+        for bb, t in calls:
+            a0 = t["args"][0]
+            ty = ""
+            if a0.get("k") in ("copy", "move"):
+                ty = m.local_ty_str(a0["p"]["l"]) or ""
+            gargs = (m.callee(t) or {}).get("path_args", "") or ""
+            if "patience::Patience<" not in ty and "patience::Patience<" not in gargs:
+                bad.append((t["line"], ty))
+        ok = bool(calls) and not bad
+        r.ob(ok, "patience::diff_deadline: %d inner myers call(s), %d on a non-Patience hook" % (len(calls), len(bad)))
+        if not ok:
+            r.find(fn.path, "bypass", "patience::diff_deadline runs myers::diff_deadline directly on the caller's hook (%s): on "
+                   "that path the unique items are not used as anchors" % (
+                       ", ".join("line %d, hook type %s" % b for b in bad) or "no inner call found"),
+                   file=fn.file, line=bad[0][0] if bad else fn.line)
+    return r
